@@ -526,6 +526,34 @@ func deviationsFor(fs []wfield) []deviation {
 			}})
 		}
 	}
+	// unknown fields of every wire type (1- and 2-byte tags) inside the nested
+	// timestamp, before and after its known fields
+	for i := 0; i < n; i++ {
+		if fs[i].num != 8 || fs[i].typ != protowire.BytesType {
+			continue
+		}
+		for _, ui := range []int{1, 6, 8, 15} {
+			for _, atEnd := range []bool{false, true} {
+				i, ui, atEnd := i, ui, atEnd
+				out = append(out, deviation{fmt.Sprintf("mtime-inner-unknown#%d-end=%v", ui, atEnd), func(fs []wfield) []wfield {
+					if i >= len(fs) || fs[i].num != 8 {
+						return nil
+					}
+					_, _, tn := protowire.ConsumeTag(fs[i].raw)
+					inner, _ := protowire.ConsumeBytes(fs[i].raw[tn:])
+					ifs := splitFields(inner)
+					if atEnd {
+						ifs = append(ifs, unknownFields()[ui])
+					} else {
+						ifs = append([]wfield{unknownFields()[ui]}, ifs...)
+					}
+					o := append([]wfield{}, fs...)
+					o[i] = wfield{8, protowire.BytesType, protowire.AppendBytes(protowire.AppendTag(nil, 8, protowire.BytesType), joinFields(ifs))}
+					return o
+				}})
+			}
+		}
+	}
 	return out
 }
 
